@@ -1524,7 +1524,9 @@ class Optimizer:
         else:
             # Calculate intermediate values to simplify the condition
             prev_seaweed = variables["seaweed_wet_on_farm"][month - 1]
-            growth_rate = self.time_consts["growth_rates_monthly"][month] / 100.0
+            # growth_rates_monthly is 100 x the monthly growth factor (1 + d/100)**30, i.e. this month's
+            # biomass as a percentage of last month's
+            growth_factor = self.time_consts["growth_rates_monthly"][month] / 100.0
             humans_consumed = variables["seaweed_to_humans"][month]
             feed_consumed = variables["seaweed_feed"][month]
             biofuel_consumed = variables["seaweed_biofuel"][month]
@@ -1536,7 +1538,7 @@ class Optimizer:
             # Set the condition for the seaweed wet on farm
             conditions["Seaweed_Wet_On_Farm"] = (
                 variables["seaweed_wet_on_farm"][month]
-                == prev_seaweed * (1 + growth_rate)
+                == prev_seaweed * growth_factor
                 - humans_consumed
                 * 1
                 / (
